@@ -5,8 +5,12 @@ import json
 import os
 import re
 import subprocess
+import sys
 
 import vlib
+
+sys.path.insert(0, os.path.dirname(os.path.abspath(__file__)))
+from t1 import run_t1  # noqa: E402  (T1 leaf translator tie, checks/t1.py)
 
 LEVEL = "proof"
 
@@ -54,6 +58,20 @@ THEOREMS = [
     "Mpc.C12_wide_witnesses",
     "Mpc.C12_rewiden_witness",
     "Mpc.Fold.constantMpa_ok",
+    # several constants in one program (Model/FoldTable.lean)
+    "Mpc.C12_const_table_exact_iff",
+    "Mpc.C12_decimal_naming_injective",
+    "Mpc.C12_mixed_naming_not_injective",
+    "Mpc.C12_constants_see_own_bits",
+    "Mpc.C12_multi_item_unaffected_by_company",
+    "Mpc.C12_mixed_naming_witness",
+    "Mpc.C12_multi_rewiden_witness",
+    "Mpc.Fold.const_table_exact_iff",
+    "Mpc.Fold.lookup_table",
+    "Mpc.Fold.result_mem_registrations",
+    "Mpc.Fold.decName_injective",
+    "Mpc.Fold.cvName_int_injective",
+    "Mpc.Fold.mixedName_collision",
 ]
 
 # operator -> mpa method table of Binary.evalConst (T2 fact)
@@ -210,13 +228,94 @@ def fold_runs(ctx, seeds, n, tag=""):
     return fails
 
 
+def attribute_multi(ctx, fails, ops):
+    """`c12-multi-differs`: cause from the Lean model (`multiwhy`), model_predicts from the `multi` line of the case."""
+    lines = {}
+    try:
+        with open(ops, errors="replace") as fo, open(ops.replace(".ops", ".out"), errors="replace") as fi, \
+                open(ops + ".model", errors="replace") as fm:
+            for o, a in zip(fo, fi):
+                lines[o.rstrip("\n")] = (a.rstrip("\n"), fm.readline().rstrip("\n"))
+    except OSError:
+        pass
+    todo = [f for f in fails if f.get("sig") == "c12-multi-differs" and f.get("multi_spec")]
+    why = run_driver_lines(ctx, ["c12 multiwhy %s %s" % (f.get("output", 0), f["multi_spec"].split(" ", 2)[2]) for f in todo]) \
+        if todo else []
+    for f, w in zip(todo, why):
+        impl, model = lines.get(f["multi_spec"], ("?", "??"))
+        f["model_predicts"] = "true" if impl == model else "false"
+        f["cause"] = w[3:] if w.startswith("ok ") else w
+    for f in fails:
+        f.setdefault("cause", "none")
+        f.setdefault("model_predicts", "n/a")
+
+
+def multi_runs(ctx, n_multi, n_ident, seed=None, tag=""):
+    """Several constants in one program + the identity probe of Generator.Constant."""
+    seed = ctx.seed if seed is None else seed
+    fails = []
+    ops, out, meta = ctx.run_hx("multi", n_multi, seed=seed, tag=tag, timeout=2400)
+    ctx.absorb_meta(meta, prefix=tag)
+    ctx.correspond("multi lines: 2..4 constant expressions in one program, outputs at x = 0 (Model/FoldTable.lean "
+                   "multiOutputs: table keyed by name, first registered instance, rewiden)%s" % tag, ops, out)
+    for line in open(ops, errors="replace"):
+        ctx.distinct.add(hashlib.sha1(line.encode()).digest())
+    mf = meta.get("fails_all") or []
+    attribute_multi(ctx, mf, ops)
+    fails += mf
+    ctx.oblige("multi oracle ran%s" % tag, (meta.get("counters") or {}).get("multi_cases", 0) > 0, json.dumps(meta)[:500])
+    ops, out, meta = ctx.run_hx("ident", n_ident, seed=seed, tag=tag, timeout=1200)
+    ctx.absorb_meta(meta, prefix=tag)
+    ctx.correspond("ident lines: the real Generator.Constant gives two (value, type) one Name iff the model's decimal "
+                   "naming does (Model/FoldTable.lean identSame)%s" % tag, ops, out)
+    for line in open(ops, errors="replace"):
+        ctx.distinct.add(hashlib.sha1(line.encode()).digest())
+    jf = meta.get("fails_all") or []
+    attribute_multi(ctx, jf, ops)
+    fails += jf
+    ctx.oblige("identity probe ran%s" % tag, (meta.get("counters") or {}).get("ident_pairs", 0) > 0, json.dumps(meta)[:500])
+    return fails
+
+
+def replay_exact(ctx):
+    """`bin/check C12 --replay F`: when F holds one `multi` program or one `ident` pair, run exactly that case on
+    the real compiler first (the seeded run that produced it follows)."""
+    if "--replay" not in sys.argv:
+        return
+    try:
+        rp = sys.argv[sys.argv.index("--replay") + 1]
+        rp = rp if os.path.isabs(rp) else os.path.join(vlib.VERIF, rp)
+        f = json.load(open(rp)).get("failure") or {}
+    except Exception:
+        return
+    for mode, key, pre in (("multi", "multi_spec", "c12 multi "), ("ident", "ident_spec", "")):
+        spec = f.get(key)
+        if not spec:
+            continue
+        spec = spec[len(pre):] if pre and spec.startswith(pre) else spec
+        ops, out, meta = ctx.run_hx(mode, 1, extra_args=["-extra", spec], tag="-replay", timeout=600)
+        got = meta.get("fails_all") or []
+        if mode == "multi":
+            ctx.correspond("replayed multi case vs model", ops, out)
+        attribute_multi(ctx, got, ops)
+        print("replayed exactly: c12 %s -extra \"%s\"\n  -> %s" % (mode, spec, "; ".join(
+            "%s output %s: constant variant %s, run-time %s" % (g.get("sig"), g.get("output", "-"), g.get("const_out", g.get("name")),
+                                                                g.get("rt_out", g.get("detail", ""))) for g in got)
+            or "no failure on this tree"))
+        for g in got:
+            g["found_by"] = "exact replay of " + os.path.basename(rp)
+        ctx.fails.extend(got)
+
+
 def run(ctx):
     ctx.prove("MpcVerif.Props.C12", THEOREMS)
+    run_t1(ctx, ["C12"])          # compiler/mpa/mpint.go small paths = Model/Mpa.lean
     if ctx.tier == "thorough":
         ctx.leanchecker("MpcVerif.Props.C12")
     ctx.build_drv()
     quick = ctx.tier == "quick"
     if ctx.build_hx():
+        replay_exact(ctx)
         ops, out, meta = ctx.run_hx("mpa", 12000 if quick else 120000)
         ctx.absorb_meta(meta)
         facts(ctx, meta)
@@ -238,6 +337,11 @@ def run(ctx):
         ctx.correspond("alias lines: two constants sharing a name, second re-widened (Model/Fold.lean rewiden)", aops, aout)
         ctx.fails.extend(meta.get("fails_all") or [])
         ctx.oblige("alias oracle ran", (meta.get("counters") or {}).get("alias_cases", 0) > 0, json.dumps(meta)[:500])
+        # several constants in one program; identity of constants (Generator.Constant) probed directly
+        ctx.fails.extend(multi_runs(ctx, 700 if quick else 6000, 1500 if quick else 20000))
+        if not quick:
+            for i in range(1, 4):
+                ctx.fails.extend(multi_runs(ctx, 3000, 8000, seed=ctx.seed + 31 * i, tag="-s%d" % i))
         causes = {}
         for f in ctx.fails:
             causes[f["sig"] + ":" + f.get("cause", "?")] = causes.get(f["sig"] + ":" + f.get("cause", "?"), 0) + 1
@@ -246,13 +350,21 @@ def run(ctx):
         "per case one (operator, intN/uintN/bool, a, b, operand forms T(v) / T(-v) / -T(v)); widths biased to "
         "1,2,3,7,8,9,15,16,31,32,33,63,64,65,66,100,127..130 plus uniform 1..130; values 0,1,max,min,max-k,min+k, top-bit "
         "patterns, around 2^31/2^32/2^63/2^64, -1, random; shift counts around the width and 31..65; each case compiled "
-        "as constant and as run-time variant with 13 (int) / 5 (bool) consumers and 3 consumer inputs; distinct = distinct "
-        "case keys / mpa op lines")
+        "as constant and as run-time variant with 13 (int) / 5 (bool) consumers and 3 consumer inputs; mode multi: 2..4 "
+        "items (typed constant or folded + - | ^ <<, each of its own type, inline or through := variables, consumed by "
+        "^x / +x / x-) per program, items 0/1 an adversarial pair for the identity of constants (one digit string read in "
+        "two of the bases 2/8/10/16 at lengths around the 32/64/128-bit sizing boundaries, equal low 32/64 bits, same value "
+        "at another width/signedness, -k vs 2^N-k, value = the other one's printed digits, same twice, random), 3 input "
+        "vectors; mode ident: the same pairs through the real Generator.Constant, both orders; distinct = distinct "
+        "case keys / op lines")
     ctx.assumptions += [
         "the builders of compiler/circuits are taken at their arithmetic meaning (C07); Model/Mpa.lean's large path and "
         "Model/Fold.lean's circuitOp are tied to the real circuits by the mpa / rt correspondence lines only",
         "operand forms are T(v), T(-v) and -T(v); constants reached through const declarations and untyped-typed mixes "
-        "are not generated; name collisions between differently typed constants only by the alias oracle (two constants)",
+        "are not generated (constants bound by := are, mode multi); the registration order of the constants of a multi "
+        "program (first instance of a name wins) is modelled for the two generated program shapes only",
+        "the naming function of Generator.Constant is tied to the model's decimal naming by the equality pattern of the "
+        "Names on generated pairs (ident lines) and by the multi lines, not by comparing the Name text",
         "theorems cover every width; above 64 bits they are about the large path modelled at the level result = (x op y) "
         "mod 2^N (adder/subtractor/multiplier/divider circuits and math/big taken at their arithmetic meaning), tied to "
         "the real code by the mpa API and fold/cret correspondence lines",
@@ -263,6 +375,9 @@ def run(ctx):
         "every difference, rejection of the constant variant and compiler panic is reported. Each report is attributed to "
         "the first hypothesis of the operator theorems it violates (computed by the Lean driver from the model) and marked "
         "with whether the Lean model predicts the folded constant, the constant-variant result and the run-time result "
-        "exactly; known findings match (signature, cause, model_predicts=true) only. Tie: exported mpa API vs Model/Mpa.lean; "
+        "exactly; known findings match (signature, cause, model_predicts=true) only. Programs of several constant "
+        "expressions (mode multi) are compared output by output with the run-time variant; a difference that the item "
+        "does not show when compiled alone is reported (cause from the model's constant table). The real "
+        "Generator.Constant is probed for two constants of one Name with different bits. Tie: exported mpa API vs Model/Mpa.lean; "
         "folded constant (type, Bits, MinBits, mpa size, value), `return c` result and run-time circuit result vs "
         "Model/Fold.lean, line by line.")
